@@ -142,6 +142,7 @@ sexp sexp_copy_bignum (sexp ctx, sexp dst, sexp a, sexp_uint_t len0) {
   size = sexp_sizeof(bignum) + len*sizeof(sexp_uint_t);
   if (! dst || sexp_bignum_length(dst) < len) {
     dst = sexp_alloc_tagged(ctx, size, SEXP_BIGNUM);
+    if (sexp_exceptionp(dst)) return dst;
     sexp_bignum_length(dst) = len;
   }
   if (sexp_bignum_length(a) < len)
@@ -221,7 +222,8 @@ sexp sexp_bignum_fxadd (sexp ctx, sexp a, sexp_uint_t b) {
   } while (++i<len && carry);
   if (carry) {
     a = sexp_copy_bignum(ctx, NULL, a, len+1);
-    sexp_bignum_data(a)[len] = 1;
+    if (!sexp_exceptionp(a))
+      sexp_bignum_data(a)[len] = 1;
   }
   return a;
 }
